@@ -430,3 +430,422 @@ def evaluate_png(ctx):
     if 'png' not in cache:
         cache['png'] = PngEval(ctx)
     return cache['png']
+
+
+# ------------------------------------------------- .p8.png memory plumbing
+
+class PngPlumbing:
+    """P8PNGFormatter.to_file and get_raw_data_from_p8png_file evaluated with
+    the pixel codec, the PNG library, the compressor and the file system
+    replaced by stand-ins: what remains is the order in which the regions are
+    laid out in the 0x8001-byte image memory (writer) and the slices the
+    reader cuts out of it.  Every byte is a distinct symbolic object, so the
+    layout is read off by identity."""
+
+    MOD = 'pico8.game.formatter.p8png'
+
+    def __init__(self, ctx):
+        self.ctx = ctx
+        self.cx = CX.Cx(ctx.model, ctx.consts)
+        self.regions = {n: [BV.source(('mem', n, k), 8) for k in range(b - a)]
+                        for (n, a, b) in ref.MEMORY_MAP}
+        self.code = [BV.source(('mem', 'code', k), 8)
+                     for k in range(ref.CODE_AREA)]
+        self.version = BV.source(('mem', 'version', 0), 8)
+        self.code_args = None
+        self.writer = self._eval(self._writer)
+        self.loaded = self._eval(self._from_file)
+
+    def _eval(self, fn):
+        try:
+            paths = self.cx.explore(fn)
+            paths = [(c, r) for (c, r) in paths]
+            if len(paths) != 1 or paths[0][0]:
+                raise CX.CxError('control flow depends on cart contents')
+            kind, val = paths[0][1]
+            if kind == 'raise':
+                return ('raise', val.tname, val.args_)
+            return val
+        except AnalysisError as e:
+            return e
+
+    def _png_stub(self, rows_holder):
+        def reader(cx, args, kw):
+            def read(cx2, a, k):
+                return (160, 205, [], {'planes': 4})
+            return CX.Opaque('png.Reader', {'read': read,
+                                            'asRGBA8': read, 'asDirect': read})
+
+        def writer(cx, args, kw):
+            def write(cx2, a, k):
+                rows_holder['written'] = a
+                return None
+            return CX.Opaque('png.Writer', {'write': write})
+        return reader, writer
+
+    def _writer(self):
+        cxi = self.cx
+        holder = {}
+        reader, writer = self._png_stub(holder)
+        cxi.ext_hooks = {
+            'png.Reader': reader, 'png.Writer': writer,
+            'open': lambda cx, a, k: CX.Opaque('file', {
+                'read': lambda c, a2, k2: b'', 'close': lambda c, a2, k2: None}),
+        }
+
+        def fake_pngdata(cx, args, kw, bound):
+            holder['picodata'] = args[0] if args else kw.get('picodata')
+            return []
+
+        def fake_code(cx, args, kw, bound):
+            return CX.Seq('bytearray', list(self.code))
+        cxi.hooks = {
+            self.MOD + ':get_pngdata_from_picodata': fake_pngdata,
+            self.MOD + ':get_bytes_from_code': fake_code,
+        }
+        game = CX.Obj(self.ctx.model.cls('pico8.game.game:Game'))
+        for n, q in SECTIONS.items():
+            o = CX.Obj(self.ctx.model.cls(q))
+            o.attrs['_data'] = CX.Seq('bytearray', list(self.regions[n]))
+            o.attrs['_version'] = 8
+            game.attrs[n] = o
+        game.attrs['version'] = self.version
+        game.attrs['label'] = None
+        game.attrs['lua'] = CX.Opaque('lua', {
+            'to_lines': lambda c, a, k: [b'x=1\n']})
+        fmt = CX.ClassVal(self.ctx.model.cls(self.MOD + ':P8PNGFormatter'))
+        out = CX.Opaque('stream', {'write': lambda c, a, k: None})
+        cxi.call(cxi.getattr(fmt, 'to_file'), [game, out], {})
+        pd = holder.get('picodata')
+        if pd is None:
+            raise CX.CxError('the pixel encoder was not called')
+        return cxi.items(pd)
+
+    def _reader(self):
+        cxi = self.cx
+        holder = {}
+        reader, writer = self._png_stub(holder)
+        cxi.ext_hooks = {'png.Reader': reader, 'png.Writer': writer}
+        self.pic = [BV.source(('mem', 'pic', k), 8)
+                    for k in range(ref.VERSION_OFFSET + 1)]
+
+        def fake_picodata(cx, args, kw, bound):
+            return list(self.pic)
+
+        def fake_code(cx, args, kw, bound):
+            holder['code_args'] = args
+            return (0, b'', None)
+        cxi.hooks = {
+            self.MOD + ':get_picodata_from_pngdata': fake_picodata,
+            self.MOD + ':get_code_from_bytes': fake_code,
+        }
+        f = self.ctx.model.func(self.MOD + ':get_raw_data_from_p8png_file')
+        stream = CX.Opaque('stream', {'read': lambda c, a, k: b''})
+        data = cxi.call_function(f, [stream], {})
+        if not isinstance(data, CX.Obj):
+            raise CX.CxError('reader returns ' + type(data).__name__)
+        return data
+
+    def _from_file(self):
+        """P8PNGFormatter.from_file on the symbolic image memory: which
+        section object of the loaded game holds which slice"""
+        cxi = self.cx
+        holder = {}
+        reader, writer = self._png_stub(holder)
+        cxi.ext_hooks = {'png.Reader': reader, 'png.Writer': writer}
+        self.pic = [BV.source(('mem', 'pic', k), 8)
+                    for k in range(ref.VERSION_OFFSET + 1)]
+        cxi.hooks = {
+            self.MOD + ':get_picodata_from_pngdata':
+                lambda cx, a, k, b: list(self.pic),
+            self.MOD + ':get_code_from_bytes': self._fake_code,
+            'pico8.lua.lua:Lua.from_lines':
+                lambda cx, a, k, b: CX.Opaque('Lua'),
+        }
+        fmt = CX.ClassVal(self.ctx.model.cls(self.MOD + ':P8PNGFormatter'))
+        stream = CX.Opaque('stream', {'read': lambda c, a, k: b''})
+        game = cxi.call(cxi.getattr(fmt, 'from_file'), [stream], {})
+        if not isinstance(game, CX.Obj):
+            raise CX.CxError('from_file returns ' + type(game).__name__)
+        return game
+
+    def _fake_code(self, cx, args, kw, bound):
+        self.code_args = (list(args), dict(kw))
+        return (0, b'', None)
+
+    def code_slice(self):
+        """(start, end) of the bytes handed to get_code_from_bytes and the
+        index of the version byte handed with them"""
+        if not self.code_args:
+            return None
+        args, kw = self.code_args
+        index = {id(x): k for k, x in enumerate(self.pic)}
+        cd = args[0] if args else kw.get('codedata')
+        ver = args[1] if len(args) > 1 else kw.get('version')
+        try:
+            ks = [index.get(id(x)) for x in self.cx.items(cd)]
+        except Exception:
+            return None
+        if not ks or None in ks or ks != list(range(ks[0], ks[0] + len(ks))):
+            return None
+        return (ks[0], ks[0] + len(ks), index.get(id(ver)))
+
+    def writer_layout(self):
+        """{region name | 'code' | 'version': (start, end)} in the image
+        memory the writer builds"""
+        w = self.writer
+        if isinstance(w, tuple):
+            raise AnalysisError('to_file {}: {}'.format(w[0], w[1:]))
+        index = {id(x): k for k, x in enumerate(w)}
+        out = {}
+        srcs = dict(self.regions)
+        srcs['code'] = self.code
+        for n, items in srcs.items():
+            ks = [index.get(id(x)) for x in items]
+            if None in ks or ks != list(range(ks[0], ks[0] + len(ks))):
+                out[n] = None
+            else:
+                out[n] = (ks[0], ks[0] + len(ks))
+        out['version'] = (index.get(id(self.version)), None)
+        out['size'] = len(w)
+        return out
+
+    def game_regions(self):
+        """{game attribute: (class name, start, end)} + version"""
+        g = self.loaded
+        if isinstance(g, tuple):
+            raise AnalysisError('from_file {}: {}'.format(g[0], g[1:]))
+        index = {id(x): k for k, x in enumerate(self.pic)}
+        out = {}
+        for name, v in g.attrs.items():
+            if isinstance(v, CX.Obj) and '_data' in v.attrs:
+                its = self.cx.items(v.attrs['_data'])
+                ks = [index.get(id(x)) for x in its]
+                if its and None not in ks and \
+                        ks == list(range(ks[0], ks[0] + len(ks))):
+                    out[name] = (v.cls.name, ks[0], ks[0] + len(ks))
+                else:
+                    out[name] = (v.cls.name, None, None)
+            elif isinstance(v, BV) and id(v) in index:
+                out[name] = ('byte', index[id(v)], None)
+        return out
+
+    # ---- verdicts ----------------------------------------------------------
+    def writer_diff(self):
+        w = self.writer
+        if isinstance(w, tuple):
+            return 'to_file {}: {}'.format(w[0], w[1:])
+        want = []
+        order = []
+        for (n, a, b) in ref.MEMORY_MAP:
+            want.extend(self.regions[n])
+            order.append(n)
+        want.extend(self.code)
+        want.append(self.version)
+        if len(w) != len(want):
+            return 'the image memory has {} bytes instead of {}'.format(
+                len(w), len(want))
+        for i, (x, y) in enumerate(zip(w, want)):
+            if x is y:
+                continue
+            xb = x if isinstance(x, BV) else BV.const(x, 8)
+            if xb != y:
+                src = '?'
+                for c in xb.cells:
+                    if c is not None and len(c.vars) == 1:
+                        src = '{}[{}]'.format(c.vars[0][0][1],
+                                              c.vars[0][0][2])
+                        break
+                return ('image memory byte 0x{:x} holds {} where the format '
+                        'has {}'.format(i, src, self._name_at(i)))
+        return None
+
+    @staticmethod
+    def _name_at(i):
+        for (n, a, b) in ref.MEMORY_MAP:
+            if a <= i < b:
+                return '{}[{}]'.format(n, i - a)
+        if i < ref.VERSION_OFFSET:
+            return 'code[{}]'.format(i - ref.CODE_REGION[0])
+        return 'the version byte'
+
+    def reader_slices(self):
+        """{attribute: (start, end)} for every attribute of the returned
+        object that is a contiguous slice of the image memory, plus
+        'version' -> (0x8000, None) when it is that byte"""
+        d = self._eval(self._reader)
+        if isinstance(d, AnalysisError):
+            raise d
+        if isinstance(d, tuple):
+            raise AnalysisError('reader {}: {}'.format(d[0], d[1:]))
+        index = {id(x): k for k, x in enumerate(self.pic)}
+        out = {}
+        for name, v in d.attrs.items():
+            if isinstance(v, BV):
+                k = index.get(id(v))
+                if k is not None:
+                    out[name] = (k, None)
+                continue
+            try:
+                its = self.cx.items(v)
+            except Exception:
+                continue
+            if not its:
+                continue
+            ks = [index.get(id(x)) for x in its]
+            if None in ks:
+                continue
+            if ks == list(range(ks[0], ks[0] + len(ks))):
+                out[name] = (ks[0], ks[0] + len(ks))
+        return out
+
+
+def evaluate_png_plumbing(ctx):
+    cache = ctx.__dict__.setdefault('_cx_sections', {})
+    if 'plumbing' not in cache:
+        cache['plumbing'] = PngPlumbing(ctx)
+    return cache['plumbing']
+
+
+# ------------------------------------------------------ .p8.png code area
+
+class CodeAreaEval:
+    """get_bytes_from_code / get_code_from_bytes evaluated with the
+    compressor and decompressor replaced by stand-ins that return symbolic
+    streams of chosen lengths: decides the `:c:` header, the raw form, the
+    compressed-iff-smaller choice, the zero padding and the refusal of code
+    that does not fit -- for the lengths listed in CASES, every byte
+    symbolic."""
+
+    MOD = 'pico8.game.formatter.p8png'
+    AREA = ref.CODE_AREA
+    # (code length, compressed length)
+    CASES = [(100, 50), (100, 99), (100, 100), (100, 150), (1, 5), (0, 0),
+             (300, 20), (0x3d00, 0x3d10), (0x3d01, 0x3d10), (0x3d00 + 40, 0x3cf8),
+             (0x3d00 + 40, 0x3cf9), (0x3d00 + 40, 0x3d00), (70000, 100)]
+
+    def __init__(self, ctx):
+        self.ctx = ctx
+        self.cx = CX.Cx(ctx.model, ctx.consts)
+        self.f = ctx.model.func(self.MOD + ':get_bytes_from_code')
+        self.g = ctx.model.func(self.MOD + ':get_code_from_bytes')
+        self.code_all = [BV.source(('mem', 'code', k), 8)
+                         for k in range(70001)]
+        self.comp_all = [BV.source(('mem', 'comp', k), 8)
+                         for k in range(0x3d20)]
+
+    def writer_problem(self):
+        """None | description of the first case in which the code area is not
+        what the format says"""
+        cxi = self.cx
+        comp_q = 'pico8.game.compress:compress_code'
+        n_cases = 0
+        for (n, m) in self.CASES:
+            n_cases += 1
+            code = self.code_all[:n]
+            comp = self.comp_all[:m]
+            cxi.hooks = {comp_q: (lambda cx, a, k, b, comp=comp:
+                                  CX.Seq('bytes', list(comp)))}
+
+            def go():
+                return cxi.call_function(
+                    self.f, [CX.Seq('bytes', list(code))], {})
+            paths = cxi.explore(go)
+            if len(paths) != 1 or paths[0][0]:
+                raise CX.CxError('get_bytes_from_code branches on the code '
+                                 'bytes')
+            kind, val = paths[0][1]
+            if m < n:
+                if n > 0xffff:
+                    # the length does not fit the two header bytes: any
+                    # error is acceptable, silently writing is not
+                    if kind == 'ok':
+                        return ('code of {} bytes (compressed {}): the '
+                                'length does not fit the two header bytes, '
+                                'yet the area is written'.format(n, m))
+                    continue
+                want = list(ref.C_HEADER) + [n >> 8, n & 255, 0, 0] + comp
+            else:
+                want = list(code)
+            fits = len(want) <= self.AREA
+            what = 'code of {} bytes, compressed stream of {} bytes ({})' \
+                .format(n, m, 'stored compressed' if m < n else 'stored raw')
+            if not fits:
+                if kind != 'raise':
+                    return ('{}: {} bytes do not fit the {}-byte code area, '
+                            'yet no error is raised'.format(
+                                what, len(want), self.AREA))
+                continue
+            if kind == 'raise':
+                return '{}: raises {} although it fits'.format(
+                    what, val.tname)
+            got = cxi.items(val)
+            if len(got) != self.AREA:
+                return '{}: the code area has {} bytes instead of {}'.format(
+                    what, len(got), self.AREA)
+            want = want + [0] * (self.AREA - len(want))
+            for i, (x, y) in enumerate(zip(got, want)):
+                if x is y:
+                    continue
+                xb = x if isinstance(x, BV) else BV.const(x, 8)
+                yb = y if isinstance(y, BV) else BV.const(y, 8)
+                if xb != yb:
+                    return ('{}: byte {} of the code area is {} instead of '
+                            '{}'.format(what, i, _bits8(xb), _bits8(yb)))
+        self.n_cases = n_cases
+        return None
+
+    def reader_problem(self):
+        cxi = self.cx
+        dec_q = 'pico8.game.compress:decompress_code'
+        seen = {}
+
+        def fake_dec(cx, args, kw, bound):
+            seen['arg'] = args[0] if args else kw.get('codedata')
+            return (7, b'decoded', 5)
+        cxi.hooks = {dec_q: fake_dec}
+        # compressed area, version 8: the decompressor gets the whole area
+        area = list(ref.C_HEADER) + [0, 7, 0, 0] + self.comp_all[:5]
+        area = area + [0] * (self.AREA - len(area))
+
+        def run(area, version):
+            def go():
+                return cxi.call_function(self.g, [list(area), version], {})
+            paths = cxi.explore(go)
+            if len(paths) != 1 or paths[0][0]:
+                raise CX.CxError('get_code_from_bytes branches on symbolic '
+                                 'bytes')
+            return paths[0][1]
+        kind, val = run(area, 8)
+        if kind == 'raise':
+            return 'compressed area: raises ' + val.tname
+        r = cxi.items(val)
+        if 'arg' not in seen:
+            return 'an area starting with :c:\\0 is not decompressed'
+        if len(r) != 3 or r[0] != 7 or bytes(cxi.items(r[1])) != \
+                b'decoded' or r[2] != 5:
+            return ('compressed area: the decompressor\'s result is not '
+                    'returned as (length, code, compressed size): {}'.format(
+                        r))
+        # raw areas (concrete text so that the terminating zero is decidable)
+        for text, version in ((b'print("hi")', 8), (b'x=1\r\ny=2', 8),
+                              (b':c', 8), (b'', 8), (b'a' * self.AREA, 8),
+                              (b':c:\x00' + b'zz', 0)):
+            seen.clear()
+            area = list(text) + [0] * (self.AREA - len(text))
+            kind, val = run(area, version)
+            if kind == 'raise':
+                return 'raw area {!r}: raises {}'.format(text[:12], val.tname)
+            r = cxi.items(val)
+            if 'arg' in seen:
+                return 'raw area {!r} (version {}) is handed to the ' \
+                       'decompressor'.format(text[:12], version)
+            n0 = text.index(0) if 0 in text else len(text)
+            want = text[:n0].replace(b'\r', b' ') + b'\n'
+            if len(r) != 3 or r[0] != n0 or \
+                    bytes(cxi.items(r[1])) != want or r[2] is not None:
+                return ('raw area {!r}: returns {} instead of (length {}, '
+                        'the text + newline, None)'.format(
+                            text[:12], (r[0], bytes(cxi.items(r[1]))[:20],
+                                        r[2]) if len(r) == 3 else r, n0))
+        return None
